@@ -2226,6 +2226,32 @@ class Controller:
         '''
         See Bluetooth spec Vol 4, Part E - 7.8.13 LE Create Connection Cancel Command
         '''
+        if (pending := self.pending_le_connection) is None:
+            return hci.HCI_StatusReturnParameters(
+                hci.HCI_ErrorCode.COMMAND_DISALLOWED_ERROR
+            )
+
+        # The cancelled procedure is concluded by a connection complete event
+        # with an error status, sent after the command complete event.
+        self.pending_le_connection = None
+        asyncio.get_running_loop().call_soon(
+            self.send_hci_packet,
+            hci.HCI_LE_Connection_Complete_Event(
+                status=hci.HCI_ErrorCode.UNKNOWN_CONNECTION_IDENTIFIER_ERROR,
+                connection_handle=0,
+                role=hci.Role.CENTRAL,
+                peer_address_type=hci.AddressType.PUBLIC_DEVICE,
+                peer_address=(
+                    pending.peer_address
+                    if isinstance(pending, hci.HCI_LE_Create_Connection_Command)
+                    else hci.Address.ANY
+                ),
+                connection_interval=0,
+                peripheral_latency=0,
+                supervision_timeout=0,
+                central_clock_accuracy=0,
+            ),
+        )
         return hci.HCI_StatusReturnParameters(hci.HCI_ErrorCode.SUCCESS)
 
     def on_hci_le_extended_create_connection_command(
